@@ -52,7 +52,57 @@ def digest_value(v):
     return [list(a.shape), a.dtype.kind, hashlib.sha256(np.ascontiguousarray(a).tobytes()).hexdigest()[:16]]
 
 
+def history_cases():
+    """calls whose outcome could depend on WHICH other calls ran before them in the process (constants of generated code, tensor factories): evaluated in different
+    orders and repetitions by the parent (mode argument); every label must have one outcome"""
+    import einx
+    x, y = np.arange(6.0).reshape(2, 3), np.ones((2, 3))
+
+    def my_add(a, b):
+        return np.asarray(a + b)
+
+    def my_sub(a, b):
+        return np.asarray(a - b)
+
+    def my_mul(a, b, *, k=1.0):
+        return np.asarray(a * b * k)
+
+    ad = {f.__name__: einx.numpy.adapt_numpylike_elementwise(f) for f in (my_add, my_sub, my_mul)}
+    red = einx.numpy.adapt_numpylike_reduce(lambda t, axis: np.asarray(np.sum(t, axis=axis) * 2))
+    return [
+        ("adapted my_add", lambda: ad["my_add"]("a b, a b -> a b", x, y)),
+        ("adapted my_sub", lambda: ad["my_sub"]("a b, a b -> a b", x, y)),
+        ("adapted my_mul k=3", lambda: ad["my_mul"]("a b, a b -> a b", x, y, k=3.0)),
+        ("adapted reduce", lambda: red("a [b]", x)),
+        ("factory (shape)", lambda: einx.add("a b, b", x, lambda shape: np.full(shape, 2.0))),
+        ("factory (shape, name)", lambda: einx.add("a b, b", x, lambda shape, name: np.full(shape, 3.0))),
+        ("factory (shape, arg_index)", lambda: einx.add("a b, b", x, lambda shape, arg_index=None: np.full(shape, 5.0 + (arg_index or 0)))),
+        ("factory (shape) again", lambda: einx.multiply("a b, a", x, lambda shape: np.full(shape, 7.0))),
+        ("plain sum", lambda: einx.sum("a [b]", x)),
+        ("plain id", lambda: einx.id("a b -> b a", x)),
+    ]
+
+
+def run_history(mode):
+    cases = history_cases()
+    order = list(range(len(cases)))
+    if mode == "rev":
+        order = order[::-1]
+    elif mode == "twice":
+        order = [i for i in order for _ in range(2)]
+    elif mode == "interleaved":
+        order = order[::2] + order[1::2] + order
+    for i in order:
+        label, fn = cases[i]
+        o = harness.outcome(fn, 20)
+        d = ["ok", digest_value(o[1])] if o[0] == "ok" else (["exc", o[1]] if o[0] == "exc" else ["timeout"])
+        print(json.dumps({"history_label": label, "mode": mode, "out": d}))
+
+
 def main():
+    if len(sys.argv) > 3:
+        run_history(sys.argv[3])
+        return
     cseed, n = int(sys.argv[1]), int(sys.argv[2])
     cases = [(op, d, t, k, ("numpy",)) for op, d, t, k in EXTRA]
     for i in range(n):
